@@ -16,7 +16,9 @@ static Outcome runCase(const KV& c)
     const bool probe  = c.getI("probe", 0) != 0;
     const bool includeKnown = c.getI("include_known", 0) != 0;
     LevelPair LP;
-    LP.build(p, threads, (int)c.getI("coarse_split_mode", 0), (int)c.getI("coarse_circles", 0));
+    LP.build(p, threads, (int)c.getI("coarse_split_mode", 0), (int)c.getI("coarse_circles", 0), (int)c.getI("level_depth", 0));
+    if (c.getI("level_depth", 0) > 0)
+        o.cls("deeper_level_pair");
     const PolarGrid& fg = LP.fine->grid();
     const PolarGrid& cg = LP.coarse->grid();
     const int nf = fg.numberOfNodes(), nc = cg.numberOfNodes();
@@ -249,6 +251,7 @@ static KV genCase()
     c.putI("threads", rpick({1, 2, 5, 16}));
     c.putI("coarse_split_mode", rint(0, 1));
     c.putI("coarse_circles", rint(0, (p.nr() + 1) / 2));
+    c.putI("level_depth", rweighted({3, 1, 1}));
     c.putI("x_kind", rweighted({4, 3, 1, 1, 1, 1}));
     c.putU("x_seed", rseed());
     c.putI("y_kind", rweighted({4, 3, 1, 1, 1, 1}));
